@@ -8,7 +8,7 @@ C3 = {'c1': ('A', ()), 'c2': ('A', ()), 'c3': ('D', ())}
 
 def run(res):
     own = wc.OWN['C01']
-    K = wc.base(Acts=ACTS, **wc.comps(C4))
+    K = wc.base(Acts=ACTS, **wc.comps(C4, falsy={'c2', 'c3'}))
     wc.check_and_replay(res, 'c01_tables', K, own, depth_all=3, walks=2000)
     # multi-component creation and a non-integer explicit id
     K2 = wc.base(Acts=ACTS | {'create2'}, Ids={2, 101}, **wc.comps(C3))
